@@ -25,4 +25,9 @@ CLAIMS = {
         "note": "Not decided: byte identity of output files across split runs (follows from O1–O3 together with C06 and C16). Guard equivalence is exhaustive only within interval∈[-7,7], step∈[0,20]; the predicate is piecewise in sign(interval) and step mod |interval|, which this domain covers for those intervals.",
         "technique": "statement CFG path enumeration + dominance + bounded exhaustive predicate equivalence (checker-owned evaluator)",
     },
+    "C16": {
+        "text": "Typestate analysis of the file-operation sequence of every observer call (all CFG paths; ASE writers summarised and validated against the installed source): flush after the last write, one newline-terminated write per log row/header, append-only trajectory, restart rewrite from offset 0 with truncation, and an exhaustive enumeration of crash points (every prefix of every op sequence) mapped to an abstract file state that must be allowed for that file kind.",
+        "note": "Granularity is one file operation (a torn single write counts as 'partial'); OS-level durability (fsync) is not claimed by the property. The non-atomic restart rewrite (two crash points) is a listed known finding.",
+        "technique": "typestate over file-operation sequences on CFG paths + exhaustive crash-prefix enumeration",
+    },
 }
